@@ -72,3 +72,50 @@ def forwarded_args(rep, prog, rule, files=("src/resizer.rs",), floor=2):
                 else:
                     rep.ok(rule, key, params[0][0].at, "%d calls forward `%s`" % (len(params), pe[2]))
     rep.floor(rule, "forwarded option positions of repeated calls", n, floor)
+
+
+ROLE_NAMES = ("left", "top", "width", "height")
+
+
+def geometry_roles(rep, prog, rule, floor=10):
+    """a field named like a geometry role is passed in that role"""
+    from ..sym import Sym, fmt
+    rep.rule(rule, "where a call hands a value that is literally one of the fields `left`, `top`, `width`, "
+             "`height` of a view / box to a crate-local parameter that is itself named left / top / width / "
+             "height, the two names agree: `TypedCroppedImage::new(view, self.top, self.left, ..)` compiles "
+             "(all four are u32) and reads the region mirrored at the diagonal. Values that went through "
+             "arithmetic carry no role and are not judged")
+    n = 0
+    for f in sorted(prog.fns.values(), key=lambda x: x.id):
+        sym = None
+        for c in f.calls():
+            ts = prog.call_targets(c)
+            if len(ts) != 1 or ts[0].kind == "closure":
+                continue
+            t = ts[0]
+            pn = [t.local_name(i) for i in range(1, t.arg_count + 1)]
+            if sum(1 for x in pn if x in ROLE_NAMES) < 2:
+                continue
+            sym = sym or Sym(f)
+            pairs = []
+            for i, a in enumerate(c.args):
+                if i >= len(pn) or pn[i] not in ROLE_NAMES:
+                    continue
+                e = sym.operand(a, (c.bb, "term"))
+                while isinstance(e, tuple) and e and e[0] in ("copy", "ref", "deref"):
+                    e = e[1]
+                if isinstance(e, tuple) and e and e[0] == "field" and e[2] in ROLE_NAMES:
+                    pairs.append((pn[i], e[2]))
+            if not pairs:
+                continue
+            n += 1
+            rep.touch(f)
+            key = "%s|%s" % (f.name, t.name.rsplit("::", 2)[-2] + "::" + t.name.rsplit("::", 1)[-1])
+            wrong = [(p, g) for p, g in pairs if p != g]
+            if wrong:
+                rep.bad(rule, key + "|roles", c.at, "%s passes the field `%s` as the parameter `%s` of %s%s" % (
+                    f.name, wrong[0][1], wrong[0][0], t.name,
+                    " (and `%s` as `%s`)" % (wrong[1][1], wrong[1][0]) if len(wrong) > 1 else ""))
+            else:
+                rep.ok(rule, key, c.at, "fields passed in their own roles: %s" % ", ".join(p for p, _ in pairs))
+    rep.floor(rule, "calls that pass geometry fields to geometry parameters", n, floor)
